@@ -413,8 +413,12 @@ static void _GD_Delete(DIRFILE *restrict D, gd_entry_t *restrict E,
     for (i = 0; i < n_del; ++i)
       if ((del_list[i]->field_type == GD_CONST_ENTRY ||
             del_list[i]->field_type == GD_CARRAY_ENTRY) && flags & GD_DEL_DEREF)
+      {
         _GD_DeReference(D, D->entry[j], del_list[i], 0);
-      else
+        /* a CARRAY can also be the second input of an INDIR field, and any
+         * scalar the target of an alias: those pointers must go too */
+        _GD_ClearDerived(D, D->entry[j], del_list[i], 0);
+      } else
         _GD_ClearDerived(D, D->entry[j], del_list[i], 0);
 
   if (E->e->n_meta >= 0) {
@@ -459,6 +463,14 @@ static void _GD_Delete(DIRFILE *restrict D, gd_entry_t *restrict E,
   }
 
   free(del_list);
+
+  /* Aliases anywhere may have lost their target: no cached list can be trusted */
+  for (j = 0; j < D->n_entries; ++j) {
+    D->entry[j]->e->fl.entry_list_validity = 0;
+    D->entry[j]->e->fl.value_list_validity = 0;
+  }
+  D->fl.entry_list_validity = 0;
+  D->fl.value_list_validity = 0;
 
   /* Remove the entry from the list -- we need not worry about the way we've
    * already modified D->entry, since E is guaranteed to be before the stuff
